@@ -60,8 +60,8 @@ func (g *Gateway) Execute(ctx *RequestContext, plans QueryPlanList) (map[string]
 	// the plan we mean to execute
 	var plan *QueryPlan
 
-	// if there is only one plan (one operation) then use it
-	if len(plans) == 1 {
+	// if there is only one plan (one operation) then use it, unless the request names another operation
+	if len(plans) == 1 && (ctx.OperationName == "" || plans[0].Operation == nil || plans[0].Operation.Name == ctx.OperationName) {
 		plan = plans[0]
 	} else {
 		// if we weren't given an operation name then we don't know which one to send
